@@ -14,6 +14,9 @@ def run(rep, tier):
     rep.rule("R-RADAU-CONST", "the constants RADAU::solve applies (nodes, T, TI, U1/alpha/beta in right-hand sides and in E1/E2, estimator weights) satisfy the Radau IIA(5) identities to 1e-13 in 60-digit arithmetic")
     rep.rule("R-BDF-MATRIX", "BDF corrector matrix is I - c*J with c = h/alpha[order]")
     rep.rule("R-JAC-POLICY", "Radau: the decisions about re-evaluating the Jacobian are mutually consistent (same comparison => same decision at every site) and keeping the factors implies keeping the Jacobian")
+    rep.rule("R-HINIT-ORDER", "every solver asks hinit for the order of the local error of its first step (explicit pairs: the method's order p; BDF: starting order + 1): the exponent of the automatic first step")
+    import limits
+    limits.r_hinit_order(rep, f)
     linalg.r_jac_policy(rep, f)
     linalg.r_lu_fresh(rep, f)
     linalg.r_lu_checked(rep, f)
